@@ -145,11 +145,11 @@ impl Error {
         }
     }
 
-    fn from_nom_error_kind(position: usize, kind: NomErrorKind) -> Self {
+    fn from_nom_error_kind(position: usize, len: usize, kind: NomErrorKind) -> Self {
         Self {
             span: Range {
                 start: position,
-                end: position + 1,
+                end: position + len,
             },
             kind: ErrorKind::NomError(kind),
         }
@@ -158,7 +158,10 @@ impl Error {
 
 impl ParseError<Input<'_>> for Error {
     fn from_error_kind(input: Input, kind: NomErrorKind) -> Self {
-        Self::from_nom_error_kind(input.get_position_offset(), kind)
+        // Cover the character at the error position: a fixed length of 1 ends in the middle of a
+        // multi-byte character, or past the end of the input.
+        let len = input.cursor().chars().next().map_or(0, char::len_utf8);
+        Self::from_nom_error_kind(input.get_position_offset(), len, kind)
     }
 
     fn append(_: Input, _: NomErrorKind, other: Self) -> Self {
